@@ -135,8 +135,9 @@ def _structure(
                     for n2 in l1:
                         k1 = n1.node_hash
                         k2 = n2.node_hash
-                        if k1 == k2:
+                        if k1 == k2 or n1.path == n2.path:
                             # The same node reached through two consecutive calls: no dependency on itself
+                            # (a node is drawn once per path, also when the two calls give it two signatures)
                             continue
                         if k1 not in node_deps:
                             node_deps[k1] = set()
